@@ -114,6 +114,29 @@ def _mk_saxpby(lead):
     return make
 
 
+def _fixed_vals(rng, d, real_t):
+    """per-component constants: generic, with exact zeros (python int 0 / 0.0), all equal, or distinct but nearly equal
+    (tiny magnitudes, or differing in the 6th digit) - a wrapper may neither skip a zero nor merge nearly equal values"""
+    mode = int(rng.integers(5))
+    if mode == 0:
+        return [float(real_t(x)) for x in rng.standard_normal(d)]
+    if mode == 1:
+        v = [float(real_t(x)) for x in rng.standard_normal(d)]
+        for k in rng.permutation(d)[: int(rng.integers(1, d))]:
+            v[int(k)] = 0 if rng.random() < 0.5 else 0.0
+        return v
+    if mode == 2:
+        return [float(real_t(rng.standard_normal()))] * d
+    if mode == 3:
+        return [float(real_t(x)) for x in (2.5e-9, -1e-9, 4e-9)[:d]]
+    base = float(real_t(rng.uniform(0.5, 2)))
+    return [float(real_t(base * (1 + 5e-6 * k))) for k in (0, 1, -1)[:d]]
+
+
+def _vals_scale(vals):
+    return 0.0
+
+
 def _mk_set(vector):
     def make(K, A, shape, real_t, rng):
         d = len(shape)
@@ -122,10 +145,10 @@ def _mk_set(vector):
             kw = dict(field=A.out(shape), fixed_val=c)
             return Case(K, kw, dict(field="out"), lambda i: {"field": (np.full(shape, float(c)), m_full(shape))})
         s = (d,) + shape
-        vals = [float(real_t(x)) for x in rng.standard_normal(d)]
+        vals = _fixed_vals(rng, d, real_t)
         kw = dict(vector_field=A.out(s), fixed_vals=list(vals))
-        ref = np.stack([np.full(shape, v) for v in vals])
-        return Case(K, kw, dict(vector_field="out"), lambda i: {"vector_field": (ref, m_full(s))})
+        ref = np.stack([np.full(shape, float(v)) for v in vals])
+        return Case(K, kw, dict(vector_field="out"), lambda i: {"vector_field": (ref, m_full(s))}, scale=_vals_scale(vals))
     return make
 
 
@@ -148,8 +171,8 @@ def _mk_setb(vector, w):
             kw = dict(field=A.inout(shape), fixed_val=c)
             return Case(K, kw, dict(field="inout"), lambda i: {"field": (np.full(shape, float(c)), m_zone(shape, w))})
         s = (d,) + shape
-        vals = [float(real_t(x)) for x in rng.standard_normal(d)]
-        ref = np.stack([np.full(shape, v) for v in vals])
+        vals = _fixed_vals(rng, d, real_t)
+        ref = np.stack([np.full(shape, float(v)) for v in vals])
         kw = dict(vector_field=A.inout(s), fixed_vals=list(vals))
         return Case(K, kw, dict(vector_field="inout"), lambda i: {"vector_field": (ref, m_zone(s, w, 1))})
     return make
@@ -163,8 +186,8 @@ def _mk_addc(vector):
             kw = dict(sum_field=A.out(shape), field=A.inp(shape), fixed_val=c)
             return Case(K, kw, dict(sum_field="out", field="in"), lambda i: {"sum_field": (i["field"] + float(c), m_full(shape))}, smooth=("field",))
         s = (d,) + shape
-        vals = np.array([float(real_t(x)) for x in rng.standard_normal(d)])
-        kw = dict(sum_field=A.out(s), vector_field=A.inp(s), fixed_vals=vals.copy())
+        vals = np.array([float(x) for x in _fixed_vals(rng, d, real_t)])
+        kw = dict(sum_field=A.out(s), vector_field=A.inp(s), fixed_vals=(vals.copy() if rng.random() < 0.5 else [float(x) if x != 0 else 0 for x in vals]))
         return Case(K, kw, dict(sum_field="out", vector_field="in"),
                     lambda i: {"sum_field": (i["vector_field"] + vals.reshape((d,) + (1,) * d), m_full(s))}, smooth=("vector_field",))
     return make
@@ -534,7 +557,7 @@ for w in (0, 1, 2, 3):
     VARIANTS.append(GridVariant(f"penalise_field_boundary_3d_scalar_w{w}", "gen_penalise_field_boundary_pyst_kernel_3d", 3, _mk_damp(w, False), _build_damp(3, w, False), min_side=2 * w + 1, tags=("damp",)))
     VARIANTS.append(GridVariant(f"penalise_field_boundary_3d_vector_w{w}", "gen_penalise_field_boundary_pyst_kernel_3d", 3, _mk_damp(w, True), _build_damp(3, w, True), min_side=2 * w + 1, tags=("damp",)))
 for ftype in ("multiplicative", "convolution"):
-    for order in (1, 2):
+    for order in (1, 2, 3):
         VARIANTS.append(GridVariant(f"laplacian_filter_3d_scalar_{ftype}_o{order}", "gen_laplacian_filter_kernel_3d", 3, _mk_filter(order, ftype, False), _build_filter(order, ftype, False), tags=("filter",)))
     VARIANTS.append(GridVariant(f"laplacian_filter_3d_vector_{ftype}_o2", "gen_laplacian_filter_kernel_3d", 3, _mk_filter(2, ftype, True), _build_filter(2, ftype, True), tags=("filter",)))
 
